@@ -78,7 +78,8 @@ def handleRoundTrip (st : St) (op : String) (j : Json) : Option (D (St × Json))
     let base := [("html", Json.str (String.ofList (PM.Dom.renderAll html))),
                  ("dom", Json.arr (dom.map eDNode).toArray),
                  ("noStyle", Json.bool (noStyleList html)),
-                 ("rtOk", Json.bool (rtOk R D doc))]
+                 ("rtOk", Json.bool (rtOk R D doc)),
+                 ("noMarks", Json.bool (noMarks doc))]
     match roundTrip R D doc with
     | .error e => return (st, Json.mkObj (base ++ [("err", errName e)]))
     | .ok d => return (st, Json.mkObj (base ++ [("doc", eNode d)]))
